@@ -10,16 +10,21 @@ import (
 	"errors"
 	"fmt"
 	"io"
+	"net"
 	"os"
 	"path/filepath"
 	"strconv"
+	"sync"
 	"time"
 
 	"github.com/postalsys/muti-metroo/internal/agent"
 	"github.com/postalsys/muti-metroo/internal/crypto"
+	"github.com/postalsys/muti-metroo/internal/exit"
+	"github.com/postalsys/muti-metroo/internal/forward"
 	"github.com/postalsys/muti-metroo/internal/health"
 	"github.com/postalsys/muti-metroo/internal/protocol"
 	"github.com/postalsys/muti-metroo/internal/shell"
+	"github.com/postalsys/muti-metroo/internal/stream"
 )
 
 // Engine c07b: the two ends the path ops of engine c07 do not stress.
@@ -40,6 +45,13 @@ import (
 //	       fupmeta   Agent.UploadFile of a 1-byte file with an n-byte remote path (metadata, then content)
 //	       fdownmeta Agent.DownloadFile with an n-byte remote path (metadata request)
 //	    -> ok big=<frames on the wire with payload > MaxPayloadSize> parse=ok|bad
+//
+//	nf <path> <size>…   the application writes the given sizes (each Write chunked by the real meshConn.Write; shin: one
+//	       transfer cut into STDIN messages of the first size) and does NOT close; the far end must hold every byte
+//	       within 2 s.  exit / fwd: the real Handler.HandleStreamOpen dials a loopback listener, the initiator key comes
+//	       from the handler's own STREAM_OPEN_ACK, frames go through Handler.HandleStreamData, the listener side reads;
+//	       mesh: Agent.handleStreamData -> stream manager -> meshConn.Read; shin: shell.Handler.HandleStreamData -> stdin
+//	    -> ok delivered <N> | ok pending <k>/<N> | ok differ <k>/<N>
 //
 //	stall <n> <ms>   receive path with back-pressure: the real exit readLoop produces the frames of an n-byte
 //	       transfer; they are pushed, from a goroutine, through the REAL Agent.handleStreamData ->
@@ -237,6 +249,19 @@ func c07bRun(line string) string {
 			p = "bad"
 		}
 		return fmt.Sprintf("ok big=%d parse=%s", big, p)
+	case "nf":
+		var sizes []int
+		for _, t := range f[2:] {
+			k, err := strconv.Atoi(t)
+			if err != nil || k < 0 {
+				return "bad-op"
+			}
+			sizes = append(sizes, k)
+		}
+		if len(sizes) == 0 {
+			return "bad-op"
+		}
+		return c07nfRun(e, f[1], sizes, sid)
 	case "stall":
 		n, err1 := strconv.Atoi(f[1])
 		ms, err2 := strconv.Atoi(f[2])
@@ -328,6 +353,257 @@ func c07bRun(line string) string {
 	return "bad-op"
 }
 
+// ---- delivery without a following FIN (request/response traffic)
+
+type c07nfEnv struct {
+	ln    net.Listener
+	conns chan net.Conn
+	exitH *exit.Handler
+	fwdH  *forward.Handler
+}
+
+var c07nf *c07nfEnv
+
+func c07nfSetup(e *c07Env) *c07nfEnv {
+	if c07nf != nil {
+		return c07nf
+	}
+	ln, err := net.Listen("tcp", "127.0.0.1:0")
+	must(err)
+	n := &c07nfEnv{ln: ln, conns: make(chan net.Conn, 16)}
+	go func() {
+		for {
+			c, err := ln.Accept()
+			if err != nil {
+				return
+			}
+			n.conns <- c
+		}
+	}()
+	ec := exit.DefaultHandlerConfig()
+	_, lo, _ := net.ParseCIDR("127.0.0.0/8")
+	ec.AllowedRoutes = []*net.IPNet{lo}
+	ec.IdleTimeout = 0
+	n.exitH = exit.NewHandler(ec, e.a.ID(), e.a) // opened through the real HandleStreamOpen (dial, ACK, readLoop)
+	n.exitH.Start()
+	fc := forward.DefaultHandlerConfig()
+	fc.IdleTimeout = 0
+	fc.Endpoints = []forward.Endpoint{{Key: "c07", Target: ln.Addr().String()}}
+	n.fwdH = forward.NewHandler(fc, e.a.ID(), e.a)
+	n.fwdH.Start()
+	c07nf = n
+	return n
+}
+
+// c07nfRun: the application writes the given sizes (each Write chunked by the real meshConn.Write), does NOT
+// close, and waits for the answer; the far end must have every byte within the deadline.
+func c07nfRun(e *c07Env, path string, sizes []int, sid uint64) string {
+	total := 0
+	for _, k := range sizes {
+		total += k
+	}
+	data := c07Data(total, sid)
+	deadline := 2 * time.Second
+	report := func(got []byte) string {
+		switch {
+		case bytes.Equal(got, data):
+			return fmt.Sprintf("ok delivered %d", total)
+		case len(got) < len(data) && bytes.Equal(got, data[:len(got)]):
+			return fmt.Sprintf("ok pending %d/%d", len(got), total)
+		default:
+			return fmt.Sprintf("ok differ %d/%d", len(got), total)
+		}
+	}
+	// frames of the writes, sealed with `key`, produced by the real meshConn.Write
+	framesOf := func(key *crypto.SessionKey) []*protocol.Frame {
+		st := stream.NewStream(sid, e.a.ID(), e.peer, sid)
+		st.Open()
+		st.SetSessionKey(key)
+		mc := agent.C07MeshConn(e.a, e.peer, sid, st)
+		rest := data
+		for _, k := range sizes {
+			if n, err := mc.Write(rest[:k]); err != nil || n != k {
+				panic("meshConn.Write failed")
+			}
+			rest = rest[k:]
+		}
+		var out []*protocol.Frame
+		rd := protocol.NewFrameReader(bytes.NewReader(e.sink.take()))
+		for {
+			fr, err := rd.Read()
+			if err != nil {
+				break
+			}
+			if fr.Type == protocol.FrameStreamData && fr.StreamID == sid {
+				out = append(out, fr)
+			}
+		}
+		return out
+	}
+	switch path {
+	case "exit", "fwd":
+		n := c07nfSetup(e)
+		ipriv, ipub, err := crypto.GenerateEphemeralKeypair()
+		must(err)
+		ctx := context.Background()
+		if path == "exit" {
+			port := n.ln.Addr().(*net.TCPAddr).Port
+			must(n.exitH.HandleStreamOpen(ctx, sid, sid, e.peer, "127.0.0.1", uint16(port), ipub))
+		} else {
+			must(n.fwdH.HandleStreamOpen(ctx, sid, sid, e.peer, "c07", ipub))
+		}
+		var target net.Conn
+		select {
+		case target = <-n.conns:
+		case <-time.After(5 * time.Second):
+			return "ok open-failed"
+		}
+		defer target.Close()
+		// the STREAM_OPEN_ACK the handler sent carries its ephemeral key
+		var rpub [crypto.KeySize]byte
+		found := false
+		for i := 0; i < 4000 && !found; i++ {
+			raw := e.sink.peek()
+			for len(raw) >= protocol.HeaderSize && !found {
+				l := int(binary.BigEndian.Uint32(raw[2:6]))
+				if len(raw) < protocol.HeaderSize+l {
+					break
+				}
+				if raw[0] == protocol.FrameStreamOpenAck && binary.BigEndian.Uint64(raw[6:14]) == sid {
+					ack, err := protocol.DecodeStreamOpenAck(raw[protocol.HeaderSize : protocol.HeaderSize+l])
+					must(err)
+					rpub, found = ack.EphemeralPubKey, true
+				}
+				raw = raw[protocol.HeaderSize+l:]
+			}
+			if !found {
+				time.Sleep(500 * time.Microsecond)
+			}
+		}
+		if !found {
+			return "ok open-failed"
+		}
+		e.sink.take()
+		shared, err := crypto.ComputeECDH(ipriv, rpub)
+		must(err)
+		key := crypto.DeriveSessionKey(shared, sid, ipub, rpub, true)
+		for _, fr := range framesOf(key) {
+			var herr error
+			if path == "exit" {
+				herr = n.exitH.HandleStreamData(e.peer, sid, fr.Payload, fr.Flags)
+			} else {
+				herr = n.fwdH.HandleStreamData(e.peer, sid, fr.Payload, fr.Flags)
+			}
+			if herr != nil {
+				break
+			}
+		}
+		// the target application reads what has arrived; nothing else will be sent until it answers
+		got := make([]byte, 0, total)
+		buf := make([]byte, 65536)
+		end := time.Now().Add(deadline)
+		for len(got) < total {
+			target.SetReadDeadline(end)
+			k, err := target.Read(buf)
+			got = append(got, buf[:k]...)
+			if err != nil {
+				break
+			}
+		}
+		res := report(got)
+		if path == "exit" {
+			n.exitH.HandleStreamClose(e.peer, sid)
+		} else {
+			n.fwdH.HandleStreamClose(e.peer, sid)
+		}
+		time.Sleep(2 * time.Millisecond)
+		e.sink.take()
+		return res
+	case "mesh": // ingress side: frames from the exit arrive through the real frame dispatcher, the app reads
+		keys := c07NewKeys(sid, false)
+		frames := framesOf(keys.send)
+		rsid := sid + 1<<41
+		st, err := agent.C07StreamMgr(e.a).AcceptStream(rsid, rsid, e.peer, "", 0)
+		must(err)
+		st.SetSessionKey(keys.newRecv())
+		mc := agent.C07MeshConn(e.a, e.peer, rsid, st)
+		go func() {
+			for _, fr := range frames {
+				g := *fr
+				g.StreamID = rsid
+				agent.C07HandleStreamData(e.a, e.peer, &g)
+			}
+		}()
+		rc := make(chan []byte, 1)
+		var mu sync.Mutex
+		var got []byte
+		go func() {
+			buf := make([]byte, 7000)
+			for {
+				k, err := mc.Read(buf)
+				mu.Lock()
+				got = append(got, buf[:k]...)
+				done := len(got) >= total
+				mu.Unlock()
+				if err != nil || done {
+					break
+				}
+			}
+			mu.Lock()
+			rc <- append([]byte(nil), got...)
+			mu.Unlock()
+		}()
+		var res string
+		if total == 0 {
+			res = report(nil)
+		} else {
+			select {
+			case g := <-rc:
+				res = report(g)
+			case <-time.After(deadline):
+				mu.Lock()
+				res = report(append([]byte(nil), got...))
+				mu.Unlock()
+			}
+		}
+		agent.C07StreamMgr(e.a).RemoveStream(rsid)
+		e.sink.take()
+		return res
+	case "shin": // shell target side: STDIN messages reach the session's stdin
+		keys := c07NewKeys(sid, true)
+		c07Send(e, "shin", data, maxInt(1, sizes[0]), false, keys, sid)
+		w := &c07WC{}
+		h := agent.C07ShellHandler(e.a)
+		shell.C07StdinSink(h, e.peer, sid, keys.newRecv(), w)
+		rd := protocol.NewFrameReader(bytes.NewReader(e.sink.take()))
+		for {
+			fr, err := rd.Read()
+			if err != nil {
+				break
+			}
+			if fr.Type == protocol.FrameStreamData && fr.StreamID == sid && len(fr.Payload) > 0 && fr.Flags&protocol.FlagFinWrite == 0 {
+				h.HandleStreamData(e.peer, sid, fr.Payload, fr.Flags)
+			}
+		}
+		end := time.Now().Add(deadline)
+		for len(w.got) < total && time.Now().Before(end) {
+			time.Sleep(time.Millisecond)
+		}
+		res := report(w.got)
+		shell.C07Forget(h, sid)
+		e.sink.take()
+		return res
+	}
+	return "bad-op"
+}
+
+func maxInt(a, b int) int {
+	if a > b {
+		return a
+	}
+	return b
+}
+
 func c07bGen(w *bufio.Writer, seed int64, tier string) {
 	r := newRng(seed)
 	mp := protocol.MaxPayloadSize
@@ -359,6 +635,34 @@ func c07bGen(w *bufio.Writer, seed int64, tier string) {
 		} else {
 			fmt.Fprintf(w, "msg %s %d\n", r.pickS("shmsg", "ctrlreq", "ctrlresp"), n)
 		}
+	}
+	// delivery WITHOUT a following FIN: the application writes, keeps the tunnel open and waits for the answer
+	mpl := mp - 28
+	nfSizes := [][]int{{1}, {100}, {mpl - 1}, {mpl}, {mpl + 1}, {2 * mpl}, {2*mpl - 1}, {32768}, {3 * mpl}, {65536}, {4 * mpl},
+		{mpl, mpl}, {mpl, mpl, mpl}, {1, mpl}, {mpl, 1}, {100, 2 * mpl}, {mpl - 1, 1, mpl}, {5 * mpl}}
+	for _, p := range []string{"exit", "fwd", "mesh", "shin"} {
+		for _, sz := range nfSizes {
+			if p == "shin" && len(sz) > 1 {
+				continue
+			}
+			fmt.Fprintf(w, "nf %s", p)
+			for _, k := range sz {
+				fmt.Fprintf(w, " %d", k)
+			}
+			fmt.Fprintln(w)
+		}
+	}
+	nfx := 12
+	if tier == "thorough" {
+		nfx = 300
+	}
+	for i := 0; i < nfx; i++ {
+		p := r.pickS("exit", "fwd", "mesh")
+		fmt.Fprintf(w, "nf %s", p)
+		for j, c := 0, r.pick(1, 1, 2, 3); j < c; j++ {
+			fmt.Fprintf(w, " %d", r.pick(1, 7, mpl-1, mpl, mpl, mpl+1, 2*mpl, r.intn(4*mpl)+1))
+		}
+		fmt.Fprintln(w)
 	}
 	// receive side: reader keeps up / stalls briefly / stalls for seconds with far more than the 64-slot
 	// stream buffer in flight
